@@ -1,6 +1,8 @@
 // C06: transverse Mercator, series (TransverseMercator) and exact (TransverseMercatorExact)
 #include "common.hpp"
 #include "C06_oracle.hpp"
+#include "C06_exact.hpp"
+#include "C06_api.hpp"
 #include <GeographicLib/TransverseMercator.hpp>
 #include <GeographicLib/TransverseMercatorExact.hpp>
 #include <GeographicLib/Math.hpp>
@@ -37,6 +39,21 @@ static double ground(const tmo::Ell& E, double lat1, double lon1, double lat2, d
   return std::hypot(dn, de);
 }
 
+// finding F91 (open): for eccentric ellipsoids (e^2 >= 0.15, f >= 0.08) the starting guesses of TransverseMercatorExact::sigmainv0, tuned for small e, can be
+// far from the root; Newton's iteration then wanders over the period lattice and either uses up its numit_ iterations or settles on a root of another
+// period / sheet, and Reverse returns a wrong point without any signal.  Class, decided on the iteration itself (the loop of sigmainv re-run with the
+// library's own private pieces on the same target): exact form, e^2 >= 0.15, and the iteration from the library's starting guess takes all numit_ steps or
+// leaves the period rectangle |u| <= 2K, -K' <= v <= 2K'.
+static std::string f91(double a, double f, double k0, bool ext, double x, double y) {
+  double mu = f * (2 - f); if (!(f > 0 && f < 1 && mu >= 0.15) || !std::isfinite(x) || !std::isfinite(y)) return "";
+  TransverseMercatorExact t(1.0, f, 1.0, ext); double xi = y / (a * k0), eta = x / (a * k0);
+  if (!ext) { xi = std::fabs(xi); eta = std::fabs(eta); if (xi > t._eEu.E()) xi = 2 * t._eEu.E() - xi; }
+  std::vector<tmx::Entry> tr = tmx::trace_sigmainv(t, xi, eta); bool wander = false;
+  for (auto& e : tr) if (!(std::fabs(e.u) <= 2 * t._eEu.K() && e.v >= -t._eEv.K() && e.v <= 2 * t._eEv.K())) wander = true;
+  if (!(wander || int(tr.size()) >= TransverseMercatorExact::numit_)) return "";
+  return " [class:sigmainv-not-settled e^2 = " + sg(mu) + " steps = " + std::to_string(tr.size()) + (wander ? " left the period rectangle" : "") + "]";
+}
+
 // ---- all property-level oracles for one form at one point ------------------------------------------------------------
 template<class T> static void props(const char* nm, bool series, const T& t, double a, double f, double k0, double lon0, double lat, double lon, bool ext) {
   tmo::Ell E(a, f); double e = f > 0 ? std::sqrt(f * (2 - f)) : 0;
@@ -68,7 +85,7 @@ template<class T> static void props(const char* nm, bool series, const T& t, dou
     R4 q = rev(t, lon0, r.x, r.y);
     double g = ground(E, lat, lon, q.x, q.y), tg = (2 * tl.pos() + 64 * EPS * sig * sig * a * k0) / std::fmax(r.k, 1e-3) + 8 * EPS * a;
     if (sig > 1e3) { stat("extendp-huge-coordinates-not-compared"); return; }
-    if (!(g <= tg)) bad("extendp-closure", "Reverse(Forward) in the extended domain off by " + s9(g) + " ground (tolerance " + s9(tg) + ")");
+    if (!(g <= tg)) bad("extendp-closure", "Reverse(Forward) in the extended domain off by " + s9(g) + " ground (tolerance " + s9(tg) + ")" + f91(a, f, k0, true, r.x, r.y));
     return;
   }
   // ---- poles
@@ -92,6 +109,8 @@ template<class T> static void props(const char* nm, bool series, const T& t, dou
       // far-side equator: the point lies on the cut, both sheets (x, +-y, +-gamma) are its images (the code documents the southern one)
       if (alat == 0 && backside && (r.y < 0) != (oy < 0)) { oy = -oy; og = -og; }
       double dist = std::hypot(r.x - ox, r.y - oy);
+      // (finding F90, repaired in /repo 5c8be26: the complementary parameter of the second EllipticFunction object is passed explicitly; no class is left,
+      //  a regression alarms here; the constructor state itself is checked by op tmxc)
       if (!(dist <= tl.pos())) bad("gauss-krueger-" + N, "position differs from the independent evaluation of the Gauss-Krueger mapping by " + s9(dist) + " (tolerance " + s9(tl.pos()) + "), dx = " + sg(r.x - ox) + " dy = " + sg(r.y - oy));
       double tz = double(o.sens) * (tl.round + 16 * tl.trunc) / k0 + 64 * EPS;
       if (!(angd(r.g, og) <= tz / Math::degree() + 4e-14)) bad("convergence-" + N, "gamma differs from -arg of the derivative of the mapping by " + sg(std::remainder(r.g - og, 360.0)) + " deg (tolerance " + sg(tz / Math::degree() + 4e-14) + ")");
@@ -114,9 +133,9 @@ template<class T> static void props(const char* nm, bool series, const T& t, dou
     double g = ground(E, lat, lon, q.x, q.y), tg = 2 * tl.pos() / std::fmax(r.k, 1e-3 * k0) + 8 * EPS * a;
     // on the cut (equator beyond the branch point) both sheets are images of the same point
     if (alat == 0 && backside) g = std::fmin(g, ground(E, lat, lon, -q.x, q.y));
-    if (!(g <= tg)) bad("reverse-of-forward-" + N, "Reverse(Forward(lat, lon)) is " + s9(g) + " (ground) away from (lat, lon): returned lat = " + sg(q.x) + " lon = " + sg(q.y) + " (tolerance " + s9(tg) + ")");
+    if (!(g <= tg)) bad("reverse-of-forward-" + N, "Reverse(Forward(lat, lon)) is " + s9(g) + " (ground) away from (lat, lon): returned lat = " + sg(q.x) + " lon = " + sg(q.y) + " (tolerance " + s9(tg) + ")" + (series ? std::string() : f91(a, f, k0, false, r.x, r.y)));
     double tz = (have ? std::fmax(double(o.sens), sens0) : sens0) * 2 * (tl.round + 16 * tl.trunc) / k0 + 256 * EPS;
-    if (!branchy && (have || !nearbranch) && !(angd(q.g, r.g) <= tz / Math::degree() + 1e-13 && std::fabs(q.k / r.k - 1) <= tz)) bad("reverse-gamma-k-" + N, "Reverse returns gamma, k different from Forward's at the same point: dgamma = " + sg(std::remainder(q.g - r.g, 360.0)) + " k ratio - 1 = " + sg(q.k / r.k - 1));
+    if (!branchy && (have || !nearbranch) && !(angd(q.g, r.g) <= tz / Math::degree() + 1e-13 && std::fabs(q.k / r.k - 1) <= tz)) bad("reverse-gamma-k-" + N, "Reverse returns gamma, k different from Forward's at the same point: dgamma = " + sg(std::remainder(q.g - r.g, 360.0)) + " k ratio - 1 = " + sg(q.k / r.k - 1) + (series ? std::string() : f91(a, f, k0, false, r.x, r.y)));
   }
   // ---- parities, periodicity, far side (properties of the implementation, exact up to the sign of zero and a few ulp)
   auto near = [&](double u, double v, double sc) { return (std::isnan(u) && std::isnan(v)) || std::fabs(u - v) <= 8 * EPS * sc + (series ? 0 : tl.round) || (std::isinf(u) && u == v); };
@@ -208,14 +227,14 @@ template<class T> static void rprops(const char* nm, bool series, const T& t, do
   if (std::fabs(q.x) == 90) tg += 1e-2;   // returned latitude exactly 90: position resolution at the pole is ulp(90 deg) ~ 1.6 nm, but lon is arbitrary
   if (!(dist <= tg)) {
     R4 q2 = rev(t, lon0, r.x, r.y); double g = ground(E, q.x, q.y, q2.x, q2.y);
-    if (!(g <= 2 * tl.pos() / std::fmax(q.k, 1e-3 * k0) + 8 * EPS * a)) bad("forward-of-reverse-" + N, "Forward(Reverse(x, y)) is " + s9(dist) + " away from (x, y) (tolerance " + s9(tg) + ") and is not another image of the same point");
+    if (!(g <= 2 * tl.pos() / std::fmax(q.k, 1e-3 * k0) + 8 * EPS * a)) bad("forward-of-reverse-" + N, "Forward(Reverse(x, y)) is " + s9(dist) + " away from (x, y) (tolerance " + s9(tg) + ") and is not another image of the same point" + (series ? std::string() : f91(a, f, k0, false, x, y)));
     else stat("forward-of-reverse-other-sheet");
   }
   { double e = f > 0 ? std::sqrt(f * (2 - f)) : 0, ad = std::fabs(Math::AngDiff(lon0, q.y));
     bool nearbranch = f > 0 && std::fabs(q.x) < 2 && (std::fabs(ad - 90 * (1 - e)) < 2 || std::fabs(ad - 90 * (1 + e)) < 2);
     double sens0 = (1 + std::tan(std::fmin(std::fabs(q.x), 89.9999999999999) * Math::degree())) / a * 16;
     double tz = sens0 * 2 * (tl.round + 16 * tl.trunc) / k0 + 256 * EPS;
-    if (dist <= tg && !nearbranch && std::isfinite(q.g) && std::fabs(q.x) < 90 && !(angd(q.g, r.g) <= tz / Math::degree() + 1e-13 && std::fabs(q.k / r.k - 1) <= tz)) bad("reverse-gamma-k-" + N, "Reverse and Forward disagree on gamma, k at the same point: " + sg(q.g) + " vs " + sg(r.g) + ", " + sg(q.k) + " vs " + sg(r.k) + " (tolerance " + sg(tz) + ")"); }
+    if (dist <= tg && !nearbranch && std::isfinite(q.g) && std::fabs(q.x) < 90 && !(angd(q.g, r.g) <= tz / Math::degree() + 1e-13 && std::fabs(q.k / r.k - 1) <= tz)) bad("reverse-gamma-k-" + N, "Reverse and Forward disagree on gamma, k at the same point: " + sg(q.g) + " vs " + sg(r.g) + ", " + sg(q.k) + " vs " + sg(r.k) + " (tolerance " + sg(tz) + ")" + (series ? std::string() : f91(a, f, k0, false, x, y))); }
   // parities (lon0 = 0)
   R4 p = rev(t, 0.0, x, y), mx = rev(t, 0.0, -x, y), my = rev(t, 0.0, x, -y);
   auto eqz = [&](double u, double v) { return (std::isnan(u) && std::isnan(v)) || std::fabs(u - v) <= 1e-13 * (1 + std::fabs(u)); };
@@ -294,7 +313,7 @@ static Reg r_kr("tmkr", [](const Args& A) {
 void gv::generate(const std::string& tier, uint64_t seed) {
   Rng r(seed * 2862933555777941757ULL + 6);
   long n = tier == "thorough" ? 10000 : 1300;
-  struct El { double a, f; }; std::vector<El> els = {{aW, fW}, {6.4e6, 1 / 150.0}, {6.4e6, 0.01}, {6.4e6, -0.01}, {6.4e6, 0.1}, {aW, fW}};
+  struct El { double a, f; }; std::vector<El> els = {{aW, fW}, {6.4e6, 1 / 150.0}, {6.4e6, 0.01}, {6.4e6, -0.01}, {6.4e6, 0.1}, {aW, fW}, {aW, -fW}, {6.4e6, 0.0}, {6.4e6, 1e-6}};
   std::vector<double> k0s = {1, 0.9996, 10}, lon0s = {0, 7, -123.5, 179, -180, 540, -75.25, 1e-10};
   std::vector<double> dls = {0, 1e-10, 3, 35, 60, 89, 90, 90 - 1e-10, 90 + 1e-10, 179, 180};
   std::vector<double> las = {0, -0.0, 1e-10, -1e-10, 89.999999, -89.999999, 90, -90, 89.9999999999, -89.9999999999};
@@ -320,6 +339,9 @@ void gv::generate(const std::string& tier, uint64_t seed) {
     double lon = lon0 + d;
     if (ks == 6 || ks == 7) { lon0 = 0; lon = d; }      // keep the offset exact on the strata where a single ulp matters
     if (i % 37 == 5) { lon0 = 179; lon = -179 - r.range(0, 30); st = "lon0-wrap"; }
+    if (i % 43 == 9) {   // central meridian at / next to the date line, the point on the other side of it (AngDiff must wrap)
+      lon0 = r.pick(std::vector<double>{180.0, -180.0, 179.9999999, -179.9999999, nextdn(180.0), 179.5}); double dd = r.pick(std::vector<double>{r.range(0, 3), r.range(0, 35), 1e-9, 0.0, 90.0, 89.0});
+      lon = (lon0 > 0 ? lon0 - 360 : lon0 + 360) + (lon0 > 0 ? dd : -dd); st = "lon0-dateline"; }
     if (i % 41 == 7) { lon = lon0 + d + 360.0 * r.irange(-40000000, 40000000); st = "huge-lon"; }
     if (i % 97 == 11) { lat = r.pick(std::vector<double>{90.0000001, -91.0, NAN}); st = "invalid-lat"; }
     run("tmfwd", {hx(e.a), hx(e.f), hx(k0), hx(lon0), hx(lat), hx(lon)}); stratum("fwd-" + st + (e.f == fW ? "-wgs84" : "-f" + std::to_string(e.f).substr(0, 6)));
@@ -351,6 +373,13 @@ void gv::generate(const std::string& tier, uint64_t seed) {
       double xi = r.pick(std::vector<double>{r.range(0, 1.5707), r.range(0, 1.5707), 0.0, 1e-10, 1.5707963267948966, 0.7}), eta = r.pick(std::vector<double>{r.range(0, 1.2), r.range(0, 0.6), 0.0, 1e-10, 0.05});
       run("tmkr", {hx(e.a), hx(e.f), hx(xi), hx(eta)}); stratum("kernel-rev");
     }
+    // overloads, inspectors, delegation, UTM() instances, the command-line tool
+    tmapi::generate(r, i, e.a, e.f, k0, lon0, lat, lon);
+    { double es = (e.f < 0 ? -1 : 1) * std::sqrt(std::fabs(e.f * (2 - e.f)));
+      double tau = r.pick(std::vector<double>{r.range(-10, 10), std::tan(r.range(-1.5707, 1.5707)), 0.0, 1e-300, 1e17, -1e17, r.range(-1, 1) * 1e-8, 70.0 * (1 + r.range(-1, 1) * 1e-3), 1e9});
+      run("tmtau", {hx(es), hx(tau)}); stratum("taupf-tauf"); }
+    // exact form: closed forms, starting guesses, Newton loops, kernels against Model/TMExact.lean
+    if (use_exact(e.f)) tmx::generate(r, i, e.f);
   }
 }
 int main(int argc, char** argv) { return gv::main_(argc, argv); }
